@@ -290,6 +290,8 @@ class Evaluator:
         self.fails = list(fails)
         self.events = []
         self.occ = {}
+        self.inline_nts = set(inline_nts)
+        self.default_loc = 0
 
     def action_event(self, p):
         """log event of production p (if instrumented) and fail if told to."""
@@ -304,17 +306,134 @@ class Evaluator:
                 if fp == p.pid and (k < 0 or k == occ):
                     raise EvalFail((p.pid, seq))
 
+    # Evaluation follows the order in which an LR parser runs things (appendix A.7/A.8):
+    # real (non-inlined) nodes are evaluated in post-order; inlined nodes (sugar `?`, `*`,
+    # groups, `@L`/`@R`, user `#[inline]` nonterminals) are evaluated when their host production
+    # is reduced, left to right, inner first, just before the host's own action.
     def eval(self, tree):
-        if tree[0] == "tok":
-            i = tree[1]
-            return v_tok(self.tok_kinds[i], i)
-        p, kids = tree
-        vals = [self.eval(k) for k in kids]
-        self.action_event(p)
-        return self.apply(p.sem, vals)
+        self.ntok = 0            # tokens shifted so far
+        self.last_end = None     # end of the most recently completed real symbol
+        self.res = {}            # id(node) -> (value, (start, end))  for real symbols
+        v, span = self.eval_real(tree)
+        return v
 
-    def apply(self, sem, c):
+    def tok_span(self, i):
+        if self.spans is not None:
+            return self.spans[i]
+        return (10 * i + 3, 10 * i + 7)
+
+    def is_inline(self, node):
+        return node[0] != "tok" and node[0].lhs in self.inline_nts
+
+    def phase1(self, node):
+        """evaluate the real symbols below `node` (through inlined nodes), left to right"""
+        if node[0] == "tok":
+            i = node[1]
+            self.res[id(node)] = (v_tok(self.tok_kinds[i], i), self.tok_span(i))
+            self.ntok += 1
+            self.last_end = self.tok_span(i)[1]
+        elif self.is_inline(node):
+            for k in node[1]:
+                self.phase1(k)
+        else:
+            self.eval_real(node)
+
+    def flat(self, node):
+        """real symbols contributed by node to its host production, in order"""
+        if node[0] == "tok" or not self.is_inline(node):
+            return [node]
+        out = []
+        for k in node[1]:
+            out += self.flat(k)
+        return out
+
+    def eval_real(self, node):
+        p, kids = node
+        for k in kids:
+            self.phase1(k)
+        flat = []
+        for k in kids:
+            flat += self.flat(k)
+        if flat:
+            span = (self.res[id(flat[0])][1][0], self.res[id(flat[-1])][1][1])
+        else:
+            if self.ntok < len(self.tok_kinds):
+                pos = self.tok_span(self.ntok)[0]
+            elif self.last_end is not None:
+                pos = self.last_end
+            else:
+                pos = self.default_loc
+            span = (pos, pos)
+        vals = self.alt_values(kids, flat, (span[0], span[1], True, True))
+        self.action_event(p)
+        v = self.apply(p.sem, vals, span)
+        self.res[id(node)] = (v, span)
+        self.last_end = span[1]
+        return v, span
+
+    def alt_values(self, kids, flat, host_pair):
+        """values of the children of one alternative whose flattened real symbols are `flat`;
+        inlined children are evaluated now (phase 2).  host_pair = (start, end, start_ok, end_ok).
+
+        The property statement (C06) defines @L/@R through "the symbol that follows/precedes";
+        it does not define the span of an *inlined item that expanded to nothing* (another
+        @L/@R, an absent `X?`, an empty `X*`).  When the neighbour an item reads is such an item
+        the value is unspecified: it is computed for the record but flagged, and rendered as
+        ["L", "?"] which matches any location."""
+        vals = []
+        k = 0
+        n = len(flat)
+        flats = [None if (c[0] == "tok" or not self.is_inline(c)) else self.flat(c) for c in kids]
+        nonempty = [True if f is None else bool(f) for f in flats]
+        m = len(kids)
+        for j, c in enumerate(kids):
+            if flats[j] is None:
+                vals.append(self.res[id(c)][0])
+                k += 1
+                continue
+            fc = flats[j]
+            if fc:
+                pair = (self.res[id(fc[0])][1][0], self.res[id(fc[-1])][1][1], True, True)
+            else:
+                if k > 0:
+                    st = self.res[id(flat[k - 1])][1][1]
+                elif n > 0:
+                    st = self.res[id(flat[0])][1][0]
+                else:
+                    st = host_pair[0]
+                if k < n:
+                    en = self.res[id(flat[k])][1][0]
+                elif n > 0:
+                    en = self.res[id(flat[n - 1])][1][1]
+                else:
+                    en = host_pair[1]
+                # is the neighbour that defines start / end a symbol with a defined span?
+                if j > 0:
+                    st_ok = nonempty[j - 1]
+                elif m > 1:
+                    st_ok = nonempty[1]
+                else:
+                    st_ok = host_pair[2]
+                if j + 1 < m:
+                    en_ok = nonempty[j + 1]
+                elif m > 1:
+                    en_ok = nonempty[j - 1]
+                else:
+                    en_ok = host_pair[3]
+                pair = (st, en, st_ok, en_ok)
+            cp, ckids = c
+            cvals = self.alt_values(ckids, fc, pair)
+            self.action_event(cp)
+            vals.append(self.apply(cp.sem, cvals, pair))
+            k += len(fc)
+        return vals
+
+    def apply(self, sem, c, span=None):
         k = sem[0]
+        if k == "lookL":
+            return ["L", span[1] if span[3] else "?"]
+        if k == "lookR":
+            return ["L", span[0] if span[2] else "?"]
         if k == "unit":
             return V_UNIT
         if k == "pick":
@@ -348,11 +467,28 @@ class Evaluator:
         raise ValueError(e)
 
 
-def evaluate(tree, tok_kinds, fails=()):
+def evaluate(tree, tok_kinds, fails=(), spans=None, inline_nts=()):
     """-> ('ok', value, events) | ('fail', (pid, seq), events)"""
-    ev = Evaluator(tok_kinds, fails=fails)
+    ev = Evaluator(tok_kinds, tok_spans=spans, fails=fails, inline_nts=inline_nts)
     try:
         v = ev.eval(tree)
         return ("ok", v, ev.events)
     except EvalFail as f:
         return ("fail", f.err, ev.events)
+
+
+def values_match(exp, got):
+    """structural equality where the oracle's ["L", "?"] matches any location"""
+    if isinstance(exp, list) and len(exp) == 2 and exp[0] == "L" and exp[1] == "?":
+        return isinstance(got, list) and len(got) == 2 and got[0] == "L"
+    if isinstance(exp, list) and isinstance(got, list):
+        return len(exp) == len(got) and all(values_match(a, b) for a, b in zip(exp, got))
+    return exp == got
+
+
+def has_wildcard(v):
+    if isinstance(v, list):
+        if len(v) == 2 and v[0] == "L" and v[1] == "?":
+            return True
+        return any(has_wildcard(x) for x in v)
+    return False
